@@ -15,7 +15,7 @@ Decided
       REQUEST, columns read = their positions in the STORED channel row of that spike
   A2  the subset export passes samples and channel rows of the same spikes, channels from each spike's template; get_waveforms reads the
       store when present and otherwise the raw window at spike_samples[spike_ids]; extract_waveforms keeps spike order
-Not decided: the compressed reader's chunk iterator (C16), sortedness precondition, values.
+Not decided: mtscomp's decoder (the chaining of the compressed reader's batch intervals is C16.P2), the sortedness precondition, values.
 """
 import ast
 
@@ -28,7 +28,7 @@ from vlib.front import unparse, dotted, const_value, AnchorMissing
 from vlib.shape import Shape, Space, Ix, Q, D, BoolT, StrT, NoneT, SizeOf, UNK, is_unk, Arr, Rec, Tup, ListT, B
 from obligations.shape_tables import (model_attrs, COMMON_SIGS, M, TR, Spike, Chan, Samp, Loc, RAW, Tmpl)
 
-FLOOR = 24
+FLOOR = 17
 EXPLANATION = ('sym walk of _extract_waveform over all sign cases of the window bounds (slice bounds and padding compared as normal forms with '
                'the window [s - n//2, s - n//2 + n)); structural dtype / conversion rules for the three dtype hazards; shape engine over the '
                'store lookup and the subset export; order / mask-sharing rules for the chunked extraction and the .npy writer')
@@ -104,10 +104,11 @@ def s1_extract(ctx):
                     rel = v if equal(da, hi_spec - DUR) else {'<': '>', '>': '<', '=': '='}[v]
                     t1_over = rel == '>'
         seen_cases.add((t0_neg, t1_over))
-        # structure of the result: nested vstack((zeros, w)) / vstack((w, zeros))
+        # structure of the result: nested vstack((zeros, w)) / vstack((w, zeros)), unwrapped from the outside in
         cur = val
         before = after = 0
         ok_pad = True
+        pads = []
         while is_t(cur) and cur[1] == 'call' and cur[2] in ('np.vstack', 'np.concatenate'):
             tup = cur[4]
             if not (is_t(tup) and tup[1] == 'tuple' and len(tup) == 4):
@@ -129,17 +130,29 @@ def s1_extract(ctx):
             if not (is_t(shp) and shp[1] == 'tuple' and len(shp) == 4):
                 probs.setdefault('padding zeros are not created with a (rows, columns) shape', 1)
                 continue
-            rows = shp[2]
-            inner_rows = T('index', T('attr', cur, 'shape'), C(0))
-            okrows = is_t(rows) and rows[1] == 'Sub' and nf(rows[2]) == N and rows[3] == inner_rows
-            if not okrows:
-                probs.setdefault('padding %s the block has %s rows, expected n minus the rows already present' % (side, show(rows)[:60]), 1)
+            pads.append((side, shp[2], cur))
             wcols = nf(shp[3])
             if not equal(wcols, nf(T('call', 'len', C(0), ch))):
                 probs.setdefault('padding has %s columns, expected one per requested channel' % wcols, 1)
             kws = {x[2]: x[3] for x in z[5:] if is_t(x) and x[1] == 'kw'}
             if 'dtype' in kws and not (is_t(kws['dtype']) and kws['dtype'][1] == 'attr' and kws['dtype'][3] == 'dtype'):
                 probs.setdefault('padding dtype is %s, not the dtype of the block' % show(kws['dtype'])[:40], 1)
+        # number of rows of every pad, evaluated from the inside out: rows present after the read = min(t1, dur) - max(0, t0) in this sign case
+        if ok_pad and pads and t0_neg is not None and t1_over is not None:
+            present = (DUR if t1_over else hi_spec) - (Lin.const(0) if t0_neg else (S - half))
+            for side, rows_t, inner in reversed(pads):
+                b2 = dict(binds)
+                b2[T('index', T('attr', inner, 'shape'), C(0))] = present
+                b2[T('call', 'len', C(0), inner)] = present
+                got = NF(b2)(rows_t)
+                want = (half - S) if side == 'before' else (hi_spec - DUR)
+                if any(isinstance(k, tuple) and k[0] in ('index', 'attr', 'call') for k in got.d):
+                    und_pad = True
+                    probs.setdefault('UNDECIDED number of padding rows `%s` not evaluated' % show(rows_t)[:50], 1)
+                elif not equal(got, want):
+                    probs.setdefault('in the case (window starts before 0: %s, ends after the recording: %s) the zeros stacked %s the data have %s rows, but %s rows of the window lie %s the recording' %
+                                     (t0_neg, t1_over, side.upper(), got, want, 'before' if side == 'before' else 'after'), 1)
+                present = present + got
         if not ok_pad:
             probs.setdefault('the padded result is not built by stacking zeros before / after the block (%s)' % show(val)[:80], 1)
             continue
@@ -159,14 +172,18 @@ def s1_extract(ctx):
         z = [e for e in st.trace if e[0] == 'setitem' and e[3] == C(0)]
         if not z:
             probs.setdefault('channels given as -1 are not zeroed', 1)
-    need = {(True, False), (False, True), (False, False)}
+    need = {(True, False), (False, True), (False, False), (True, True)}
     if not probs and not need <= {c for c in seen_cases}:
         miss = sorted(map(str, need - seen_cases))
         probs.setdefault('the sign cases of the window bounds are not all distinguished by the code (missing %s): a window crossing an end of the recording is not padded' % miss, 1)
+    und_msgs = [m for m in probs if m.startswith('UNDECIDED ')]
+    for m in und_msgs:
+        probs.pop(m)
+        ctx.undecided('C03.S1', fi, m[10:])
     if probs:
         for msg in list(probs)[:4]:
             ctx.violated('C03.S1', fi, msg[:150], msg)
-    else:
+    elif not und_msgs:
         ctx.holds('C03.S1', fi, 'rows [max(0, s - n//2), s - n//2 + n) on the requested columns; zeros stacked before iff the window starts before 0 and after iff it '
                   'ends beyond the recording, n - present rows each; -1 channels zeroed (%d paths, cases %s)' % (npaths, sorted(map(str, seen_cases))), '_extract_waveform')
     # ---- Y2 / Y3
@@ -581,5 +598,5 @@ LEVEL_TEXT = ('Static check of the three waveform routes: symbolic window / padd
               'dtype hazards (unsigned sample, list mask, header dtype vs bytes), chunk membership and mask sharing of the chunked extraction, '
               'order and unit factor of the .npy export, index spaces of the store lookup, and agreement of the arguments on the routes through '
               'the model.')
-LEVEL_NOTE = ('Trusted: normal forms, NumPy transfer rules, C01.S2 for _find_chunks. Not decided: the compressed chunk iterator, sortedness, values.')
+LEVEL_NOTE = ('Trusted: normal forms, NumPy transfer rules, C01.S2 for _find_chunks. Not decided: the mtscomp decoder, sortedness, values.')
 TECHNIQUE = 'static analysis: symbolic path walk with normal forms, index-space typing, and dtype-hazard rules on the ast'
